@@ -2,6 +2,7 @@
 from __future__ import annotations
 
 import json
+import re
 
 from . import common
 from .common import Check, Model, cps
@@ -10,7 +11,7 @@ ALPHA = ["a", " ", "\n", "\r", "\x0c", "\x85", " ", "#", '"', "{", "}"]
 ASSUMPTIONS = [
     "C10 model: Lang/Location.v (get_location as regex split of the prefix, render_line, scan_lines)",
     "error excerpts are compared through str(error): the line printed after '<line> |'",
-    "lines longer than 120 characters (sub-line rendering) are only checked for 'does not raise'",
+    "the rendered text is compared with the Render model exactly (both branches); message wording of errors is not",
 ]
 
 
@@ -241,12 +242,83 @@ def run(tier):
                           "pos": start, "impl": got, "model": want})
     ck.count("validation_execution_errors", len(vcases))
     ck.samples.append({"document": docs[5]})
+
+    # ---- (R) complete rendered text of print_source_location vs Lang/Render.v -----------
+    from graphql.language import print_source_location
+    rn = 3 if tier == "quick" else 4
+    rstrs = ["".join(x) for x in common.strings_upto(["a", " ", "\n", "\r", "\u2028"], rn)]
+    roffs = [(1, 1), (1, 3), (4, 1), (9, 12), (99, 100)]
+    rc, rm = [], []
+    name = "GraphQL request"
+    for s_ in rstrs:
+        nl = len(re.split("\r\n|[\n\r]", s_))
+        for pos in range(len(s_) + 1):
+            line, col = impl_get_location(s_, pos)
+            for (ol, oc) in roffs:
+                rc.append([4, oc - 1, ol - 1, line, col, len(name)] + cps(name) + cps(s_))
+                rm.append((name, s_, ol, oc, line, col))
+        # a line number one past the end must be the IndexError (model: None)
+        rc.append([4, 0, 0, nl + 1, 1, 1] + cps("n") + cps(s_))
+        rm.append(("n", s_, 1, 1, nl + 1, 1))
+    # long lines ("minified documents"): lengths around 120/160/240, columns around the 80-multiples,
+    # with and without neighbouring lines, first-line column offset pushing a line over 120
+    pat = "".join(chr(48 + (i // 10) % 10) if i % 10 == 0 else "abcdefghi"[i % 10 - 1] for i in range(400))
+    lens = [119, 120, 121, 122, 159, 160, 161, 200, 240, 241, 320] if tier == "quick" else list(range(115, 126)) + list(range(155, 166)) + [200, 239, 240, 241, 242, 320, 321, 400]
+    for L in lens:
+        for pre, post in (("", ""), ("x\n", ""), ("", "\ny"), ("x\r\n", "\ry\nz")):
+            body = pre + pat[:L] + post
+            line = 1 + (1 if pre else 0)
+            cols = sorted({1, 2, 79, 80, 81, 82, 119, 120, 121, 159, 160, 161, 162, 239, 240, 241, L - 1, L, L + 1}
+                          | ({ck.rng.randint(1, L + 1) for _ in range(6)} if tier != "quick" else set()))
+            for col in cols:
+                if col < 1 or col > L + 1:
+                    continue
+                for (ol, oc) in ((1, 1), (1, 2), (1, 80), (5, 41)):
+                    rc.append([4, oc - 1, ol - 1, line, col, 1] + cps("n") + cps(body))
+                    rm.append(("n", body, ol, oc, line, col))
+    rres = m.run_batch(rc)
+    nlong = 0
+    for (nm, body, ol, oc, line, col), r in zip(rm, rres):
+        ck.evaluations += 1
+        key = f"render-text:{body[:40]!r}:{len(body)}:{ol}:{oc}:{line}:{col}"
+        try:
+            got = print_source_location(Source(body, nm, SourceLocation(ol, oc)), SourceLocation(line, col))
+        except IndexError:
+            got = None
+        except Exception as ex:  # noqa: BLE001
+            got = f"raised {type(ex).__name__}"
+        want = common.from_cps(r[1:]) if r and r[0] == 1 else None
+        longline = any(len(x) > 120 for x in re.split("\r\n|[\n\r]", " " * (oc - 1) + body))
+        nlong += longline
+        ck.note_case(("render", body, ol, oc, line, col), nontrivial=longline or ("\n" in body or "\r" in body))
+        if got != want:
+            ck.violation(key, f"print_source_location text differs from the model for line {line} column {col} "
+                              f"offset {ol}:{oc} of a {len(body)}-character body",
+                         {"relation": "print_source_location = Render.print_source_location", "body": cps(body),
+                          "offset": [ol, oc], "line": line, "column": col, "name": nm, "impl": got, "model": want})
+    ck.count("render_text_cases", len(rc))
+    ck.count("render_text_long_line_cases", nlong)
+    ck.rule += (" (R) complete text of print_source_location vs the extracted Render model: all strings of length <= "
+                f"{rn} over {{a, space, LF, CR, U+2028}} x all offsets x 5 location offsets, a line index one past "
+                "the end (IndexError <-> None), and long lines (lengths around 120/160/240/320, columns around the "
+                "multiples of 80, neighbours, first-line column offsets)")
     return ck.finish()
 
 
 def replay(path):
     d = json.loads(open(path).read())
     body = common.from_cps(d["body"])
+    if "line" in d:
+        from graphql import Source, SourceLocation
+        from graphql.language import print_source_location
+        ol, oc = d["offset"]
+        try:
+            got = print_source_location(Source(body, d.get("name", "n"), SourceLocation(ol, oc)),
+                                        SourceLocation(d["line"], d["column"]))
+        except Exception as ex:  # noqa: BLE001
+            got = f"raised {type(ex).__name__}"
+        print("impl text:", repr(got)); print("model text:", repr(d.get("model")))
+        return 0 if got == d.get("model") else 1
     if "pos" in d:
         print("impl get_location:", impl_get_location(body, d["pos"]), "model/spec:", d.get("model"))
     else:
